@@ -202,7 +202,7 @@ def run(chk: Check, model):
     f_g = model.func("artificial._generate_graphs")
     chk.used(f_g.qualname)
     rg = SymEval(model).run_function(f_g)
-    st = [e for e in rg.events if e.kind == "store_sub" and e.name == "communication_delays"]
+    st = [e for e in rg.events if e.kind == "store_sub" and e.key is not None and e.key[0] == "tuple" and e.term[0] == "ite" and e.term[1][0] == "call" and e.term[1][1] == "isinstance" and mentions(e.term[1], "TrainableDist")]
     ok = len(st) == 1
     if ok:
         v = st[0].term
@@ -241,7 +241,7 @@ def run(chk: Check, model):
         eqs = [e for e in sub.events if e.kind == "call" and e.name.endswith(".equivalent")]
         ok = len(eqs) == 1 and eqs[0].recv == T.mk_attr(conn, "delay_dist") and eqs[0].args == (T.mk_attr(fo_.term, "delay_dist"),) and flow.equivalent(a.guard, eqs[0].term)
         chk.add("C10.apply", "applied whenever the distributions are equivalent (else raise)", ok, "apply_delay must run for every input unless equivalent() fails, which must raise", chk.loc(f_ui))
-        st = [e for e in sub.events if e.kind == "store_sub" and e.name == "new_inputs"]
+        st = [e for e in sub.events if e.kind == "store_sub" and e.term == a.term]
         chk.add("C10.apply", "the delayed inputs are what the step sees", len(st) == 1 and st[0].term == a.term and st[0].key == T.mk_index(el[0], T.ZERO), "new_inputs[input_name] must be the delayed input state", chk.loc(f_ui))
     else:
         chk.unknown("C10.apply", "apply_delay site", f"expected one apply_delay and one from_outputs per input, found {len(ads)}/{len(fos)}", chk.loc(f_ui))
@@ -255,7 +255,7 @@ def run(chk: Check, model):
     evw = SymEval(model)
     rw = evw.run_function(model.func("utils.apply_window"))
     n0 = len(evw.events)
-    evw.invoke(rw.env["_apply_window"], [S("graph")], rw.frame)
+    evw.invoke(rw.env[model.local_name("utils.apply_window._apply_window")], [S("graph")], rw.frame)
     wc = [e for e in evw.events[n0:] if e.kind == "call" and e.name.endswith(".delay_dist.window")]
     ok = len(wc) == 1
     if ok:
